@@ -8,7 +8,6 @@ import (
 	"io"
 	"log/slog"
 	"net/http"
-	"net/http/httptest"
 	"path"
 	"strconv"
 	"sync"
@@ -122,7 +121,10 @@ func (cm *cmafIngesterMgr) NewCmafIngester(req CmafIngesterSetup) (nr uint64, er
 
 	log := slog.Default().With(slog.Uint64("ingester", nr))
 
-	mpdReq := httptest.NewRequest("GET", req.URL, nil)
+	mpdReq, err := http.NewRequest("GET", req.URL, nil)
+	if err != nil || mpdReq.URL.Path == "" {
+		return 0, fmt.Errorf("bad livesim URL %q", req.URL)
+	}
 	if req.TestNowMS != nil {
 		mpdReq.URL.RawQuery = fmt.Sprintf("nowMS=%d", *req.TestNowMS)
 	}
